@@ -463,7 +463,8 @@ impl<'a> FnWeaver<'a> {
         if self.vacuity {
             let cl = Clause { id: "VACUITY".into(), props: vec![], text: "false".into() };
             let t = self.clause_text(&cl, "vacuity");
-            pre.push(ScopeOb { text: format!("\n assert({});\n", t), watch: None, force_wrap: false });
+            // evaluated after the exit's value (an exit expression may contain inner exits)
+            pre.push(ScopeOb { text: format!("\n assert({});\n", t), watch: None, force_wrap: true });
         }
         self.walk_block(block, &vec![], &vec![], pre, true);
         // all binds must have been found
@@ -647,7 +648,15 @@ impl<'a> FnWeaver<'a> {
                     }
                 }
                 let (s, en) = (lo(e.span()), hi(e.span()));
-                if wrap {
+                // a `#[cfg]`-ed tail expression cannot be bound by `let`
+                if self.src[s..en].trim_start().starts_with("#[") {
+                    wrap = false;
+                }
+                if wrap && in_block_tail {
+                    // X7 (tail of a block):  E   ->   let r__ = E; <obs> r__
+                    self.rewrite("X7", s, s, "let r__ = ".into());
+                    self.ghost(en, format!("; {} r__", text), 0);
+                } else if wrap {
                     // X7:  E   ->   { let r__ = E; <obs> r__ }
                     self.rewrite("X7", s, s, "{ let r__ = ".into());
                     self.ghost(en, format!("; {} r__ }}", text), 0);
